@@ -44,7 +44,13 @@ CHECKS["C10"] = ("reject", "exploration",
    "Trusted: harness, verif_hooks dump. Name-space discipline: the rejected source, the history and the probes use disjoint names, so whether completed definitions of a rejected source survive is not observed. Output printed by meta blocks that completed before the rejection is not counted against it. Effects of user-defined immediate words executed at build time are a listed known finding.",
    "DESIGN.md §5 C10")
 
-PENDING = {k: "check under construction in this session (claimed in DESIGN.md); listed here only until its engine lands" for k in ["C03","C04","C06","C08"]}
+CHECKS["C04"] = ("bitshare", "exploration",
+   "deterministic simulation of handle lifetimes: seeded interleaving of create / clone / derive / drop events with append / insert / invert / detach / compare / export operations on real Bitstr handles; refinement against a Vec<bool> model after every action",
+   "Seeded exploration of ownership schedules: the code mutates in place or copies depending on whether another handle to the same buffer is alive at that instant, so the scheduler's choice of when clones and drops happen selects the code path. After every action the operation's result must equal the model's and every live handle must still read back as its model (operands never modified); bit iteration, byte iteration, hex and byte export must agree with the model. All 64 (start mod 8, end mod 8) alignment classes are reached. No fault dimension: allocation failure aborts and is not injected.",
+   "Trusted: harness and its Vec<bool> model. Arguments stay within length + small slack (overflowing positions are C06/C08's business). Codec values (from_int) are not asserted, only carried.",
+   "DESIGN.md §5 C04")
+
+PENDING = {k: "check under construction in this session (claimed in DESIGN.md); listed here only until its engine lands" for k in ["C03","C06","C08"]}
 
 def main():
     checks = []
